@@ -216,4 +216,23 @@ def rule_mult(ctx):
     return r
 
 
-RULES = [rule_prov, rule_mult]
+def rule_leafcount(ctx):
+    """Shared with C18-SURV: the tree's own survival predicates and leaf counts."""
+    from .c18 import rule_surv
+
+    return C.reuse_rule(ctx, rule_surv, "C18-SURV", "C03-SURV",
+                        "the tree's survival predicates and leaf counts (what 'indices that "
+                        "survive' means)", lambda i: C.CORE in i.construct, 3)
+
+
+def rule_multpair(ctx):
+    """Shared with C06-MULT: the slice count multiplied on removal is the one
+    divided on restore."""
+    from .c06 import rule_multpair as src
+
+    return C.reuse_rule(ctx, src, "C06-MULT", "C03-MULTPAIR",
+                        "slice-count factor recorded on removal is the one divided on restore",
+                        lambda i: True, 2)
+
+
+RULES = [rule_prov, rule_mult, rule_leafcount, rule_multpair]
